@@ -88,6 +88,13 @@ def round_f32(v):
     return ctypes.c_float(v).value
 
 
+def _as_float(v):
+    """float(v) for ints; a float is returned as is (float() of a symbolic float would realise it)"""
+    if isinstance(v, float):
+        return v
+    return float(v)
+
+
 class ShCFloat:
     """stands for ctypes.c_float in the Float validator's `self._ctype(value).value`"""
 
@@ -97,7 +104,7 @@ class ShCFloat:
                 v = int(v)
             else:
                 raise TypeError("must be real number, not %s" % type(v).__name__)
-        self.value = round_f32(float(v))
+        self.value = round_f32(_as_float(v))
 
 
 class ShCDouble:
@@ -106,7 +113,7 @@ class ShCDouble:
             v = int(v)
         elif not isinstance(v, (int, float)):
             raise TypeError("must be real number, not %s" % type(v).__name__)
-        self.value = float(v)
+        self.value = _as_float(v)
 
 
 def store_int(v, bits, signed):
@@ -122,7 +129,7 @@ def store_float(v, bits):
         v = int(v)
     if not isinstance(v, (int, float)):
         raise TypeError("must be real number, not %s" % type(v).__name__)
-    v = float(v)
+    v = _as_float(v)
     return round_f32(v) if bits == 32 else v
 
 
@@ -252,6 +259,40 @@ def store_eq(a, b):
     if isinstance(a, float) and isinstance(b, float):
         return a == b or (a != a and b != b)
     return a == b
+
+
+def store_diff(a, b):
+    """leaf pairs of two snapshots that are not the very same object (collected without tracing: no operation on values).
+    returns None if the shapes differ."""
+    out = []
+
+    def walk(x, y):
+        if x is y:
+            return True
+        if isinstance(x, (list, tuple)) and isinstance(y, (list, tuple)):
+            if len(x) != len(y):
+                return False
+            for p, q in zip(x, y):
+                if not walk(p, q):
+                    return False
+            return True
+        out.append((x, y))
+        return True
+
+    with NoTracing():
+        ok = walk(a, b)
+    return out if ok else None
+
+
+def store_eq_fast(a, b):
+    """store_eq that only compares (under tracing) the leaves that are not identical objects"""
+    d = store_diff(a, b)
+    if d is None:
+        return False
+    for x, y in d:
+        if not store_eq(x, y):
+            return False
+    return True
 
 
 _cache = {}
